@@ -279,6 +279,27 @@ int main(int argc, char** argv) {
                     sink.emit("eclbin.decode " + vh::hex(bytes), ans);
                     sink.count("decode.valid");
                     fs::remove(path);
+                    // formatted layout of the same array: fixed-width fields taken from the real text,
+                    // laid out by the model; the real sizeOnDiskFormatted vs the model
+                    if (!ix && t != MESS) {
+                        TArr b = a;
+                        if (t == C0NN && rng.coin(1, 3)) b = makeArr(rng, C0NN, n, rng.pick(std::vector<int>{ 78, 99, 128 }));   // one column per line
+                        std::string fpath = tmp + "/G" + std::to_string(fileNo++) + ".FUNRST";
+                        { EclOutput out(fpath, true, std::ios::out); writeArr(out, b); }
+                        std::string text = vh::slurp(fpath);
+                        std::string body = text.size() >= 31 ? text.substr(31) : std::string();
+                        std::string fields; for (char c : body) if (c != '\n') fields += c;
+                        int w = (t == INTE) ? 12 : (t == REAL) ? 17 : (t == DOUB) ? 23 : (t == LOGI) ? 3 : (t == CHAR) ? 11 : diskEsz(b) + 3;
+                        sink.emit(std::string("eclfmt.body ") + tyName(t) + " " + std::to_string(diskEsz(b)) + " " + std::to_string(w) + " " + vh::hex(fields), vh::hex(body));
+                        sink.emit(std::string("eclfmt.size ") + tyName(t) + " " + std::to_string(diskEsz(b)) + " " + std::to_string(n),
+                                  std::to_string(sizeOnDiskFormatted((int64_t) n, t, diskEsz(b))));
+                        sink.count(std::string("fmtbody.") + tyName(t));
+                        if (t == INTE) for (size_t q = 0; q < std::min<size_t>(n, 6); ++q) {
+                            sink.emit("eclfmt.int " + std::to_string(b.iv[q]), vh::hex(fields.substr(q * 12, 12)));
+                            sink.count("fmtint");
+                        }
+                        fs::remove(fpath);
+                    }
                 }
             }
         }
@@ -336,7 +357,7 @@ int main(int argc, char** argv) {
                 for (auto t : types) {
                     std::vector<size_t> ls = (t == MESS) ? std::vector<size_t>{0} : lengthsFor(t, tier, rng);
                     for (size_t n : ls) {
-                        int esz = (t == C0NN) ? rng.pick(std::vector<int>{ 4, 8, 9, 10, 17, 40, 77 }) : 0;
+                        int esz = (t == C0NN) ? rng.pick(std::vector<int>{ 4, 8, 9, 10, 17, 40, 77, 78, 99, 128 }) : 0;
                         // a file of two arrays so that the second one depends on the seek arithmetic
                         std::vector<TArr> arrs = { makeArr(rng, t, n, esz), makeArr(rng, INTE, 3, 0) };
                         if (formatted) {
